@@ -352,9 +352,12 @@ int vorbis_book_init_decode(codebook *c,const static_codebook *s){
 
     /* perform sort */
     ogg_uint32_t *codes=_make_words(s->lengthlist,s->entries,c->used_entries);
-    ogg_uint32_t **codep=alloca(sizeof(*codep)*n);
+    ogg_uint32_t **codep;
 
     if(codes==NULL)goto err_out;
+
+    /* the entry count comes from the stream (up to 2^24): heap, not stack */
+    codep=_ogg_malloc(sizeof(*codep)*n);
 
     for(i=0;i<n;i++){
       codes[i]=bitreverse(codes[i]);
@@ -363,13 +366,14 @@ int vorbis_book_init_decode(codebook *c,const static_codebook *s){
 
     qsort(codep,n,sizeof(*codep),sort32a);
 
-    sortindex=alloca(n*sizeof(*sortindex));
+    sortindex=_ogg_malloc(n*sizeof(*sortindex));
     c->codelist=_ogg_malloc(n*sizeof(*c->codelist));
     /* the index is a reverse index */
     for(i=0;i<n;i++){
       int position=codep[i]-codes;
       sortindex[position]=i;
     }
+    _ogg_free(codep);
 
     for(i=0;i<n;i++)
       c->codelist[sortindex[i]]=codes[i];
@@ -390,6 +394,7 @@ int vorbis_book_init_decode(codebook *c,const static_codebook *s){
         if(s->lengthlist[i]>c->dec_maxlength)
           c->dec_maxlength=s->lengthlist[i];
       }
+    _ogg_free(sortindex);
 
     if(n==1 && c->dec_maxlength==1){
       /* special case the 'single entry codebook' with a single bit
